@@ -6,12 +6,13 @@
 # 1 = VIOLATION printed, 2 = the working tree does not build, 3 = harness error.
 set -u
 cd "$(dirname "$0")"
+export VERIF_ROOT="$PWD"
 . ./env.sh
 SCR=$(mktemp -d "${TMPDIR:-/tmp}/verif-run.XXXXXX") || exit 3
 trap 'rm -rf "$SCR"' EXIT
 export VERIF_SCRATCH="$SCR"
 ( cd harness && go build -o "$SCR/vrewrite" ./cmd/vrewrite ) || { echo "harness build failed (vrewrite)"; exit 3; }
-"$SCR/vrewrite" -repo /repo -out "$SCR/ov" -sched /verif/harness/ord/verifsched >"$SCR/vrewrite.log" 2>&1 || { cat "$SCR/vrewrite.log"; echo "the working tree of /repo does not load/build"; exit 2; }
+"$SCR/vrewrite" -repo /repo -out "$SCR/ov" -sched "$VERIF_ROOT/harness/ord/verifsched" >"$SCR/vrewrite.log" 2>&1 || { cat "$SCR/vrewrite.log"; echo "the working tree of /repo does not load/build"; exit 2; }
 export VERIF_OVERLAY="$SCR/ov/overlay.json"
 ( cd harness && go build -tags verif -overlay "$VERIF_OVERLAY" -o "$SCR/vcheck" ./cmd/vcheck ) >"$SCR/build.log" 2>&1 || {
   cat "$SCR/build.log"
